@@ -95,6 +95,11 @@ def run(ctx):
         m0 = [(n, arclib.gen_content(rng, rng.choice([0, 5, 40, 150]))) for n in arclib.gen_names(rng, rng.randrange(1, 4))]
         jobs.append((None, m0, f, pw, header, "w"))
         meta.append(("create:" + lab, m0, [], pw))
+    # bases whose header is as small as it gets (one short name; no member at all), encoded header
+    for tag, m0 in (("tiny1", [("a", b"z")]), ("tiny0", [])):
+        confs.append(("LZMA2", None, "encoded"))
+        jobs.append((None, m0, ch["LZMA2"], None, "encoded", "w"))
+        meta.append(("create:LZMA2/" + tag, m0, [], None))
     rec = sandbox.pmap(_record, jobs, timeout=120)
     # append sessions on top of the created archives
     ajobs, ameta = [], []
@@ -112,7 +117,9 @@ def run(ctx):
             # the new packed data overwrites the old (encoded) header while the old signature header still points at it:
             # vary what the first new bytes are (empty members only, data starting with NUL bytes, another coder)
             nm = arclib.gen_names(rng, 2)
-            for tag, m2, f2 in (("empty-only", [(nm[0], b""), (nm[1], b"")], f),
+            for tag, m2, f2 in (("tiny-incompressible", [("q", rng.randbytes(rng.choice([3, 20, 100])))], f),
+                                ("tiny-copy", [("q", rng.randbytes(5))], ch["Copy"]),
+                                ("empty-only", [(nm[0], b""), (nm[1], b"")], f),
                                 ("nul-copy", [(nm[0], b"\x00" * 9 + arclib.gen_content(rng, 40))], ch["Copy"]),
                                 ("lzma1", [(nm[0], arclib.gen_content(rng, 60))], ch["LZMA"])):
                 ajobs.append((final, m2, f2, pw, header, "a"))
